@@ -112,6 +112,12 @@ OkFormat == /\ R.rc = 0
             /\ (R.hassu => Rendered(FromDigits(R.su), R.scale, FromDigits(R.sum), R.sue))
             /\ R.roundtrip                                  \* the text parses back to the same digits, scale and su
             /\ (R.mode = "init" => R.scale = R.reqscale)
+            \* cif_value_init_numb: scientific notation iff the scale is negative or plain notation would need more than
+            \* max_leading_zeroes zeroes between the decimal point and the first significant digit (ndig decimal digits at
+            \* this scale: the first one stands at place ndig - 1 - scale); values that round to zero are left open
+            \* (zeros0: the count for the value as given; when rounding carries into a new decade the two counts differ and
+            \* the documentation does not say which one is meant - left open)
+            /\ ((R.mode = "init" /\ R.ndig > 0 /\ R.zeros0 = R.scale - R.ndig) => (R.sci <=> (R.reqscale < 0 \/ R.zeros0 > R.mlz)))
             /\ (R.mode = "auto" /\ R.hassu => /\ Cmp(FromDigits(R.su), FromInt(R.rule)) <= 0
                                               /\ ~FitsAtNextScale(FromDigits(R.sum), R.sue, R.scale, R.rule))
 OkBig == /\ Mul(FromDigits(R.a), FromDigits(R.b)) = FromDigits(R.prod)
